@@ -1,7 +1,8 @@
 """C20 — a table object stays valid and leak-free across any history, even failed calls.
 
 Correspondence: operation histories (<= 25 ops over 1..3 objects, valid and invalid arguments, reads of valid /
-truncated / non-FITS inputs from disk and from memory) are run through the REAL splinetable<CheckAlloc> (checking
+truncated / non-FITS inputs from disk and from memory, write_key / remove_key over a pool of 16 key names; plus the family
+"10..16 stored keys, removals at the first / a middle / the last position, further writes") are run through the REAL splinetable<CheckAlloc> (checking
 allocator as the Alloc template argument, ASan/UBSan/LSan build) and through the extracted ObjModel; for every
 history also every position of ONE injected allocation failure.  After every operation the outcome class, the
 field-by-field ownership picture (null / live block of N bytes / non-null-not-live), ndim/naux/shape, the live
@@ -18,15 +19,18 @@ ASSUMPTIONS = [
     "the tie is the exact differential comparison of this run",
     "knot/coefficient VALUES, cfitsio and the fitter's numerics are outside the model: which phase of a read fails, whether a write or the "
     "fitter fails are oracle inputs (all values quantified in the theorems; in the tie they are taken from the exception the real code threw)",
-    "allocation failures enter only through the Alloc template parameter (allocate<T>); operator new inside the library (scratch arrays) is not failed",
+    "allocation failures enter only through the Alloc template parameter (allocate<T>); operator new inside the library (scratch arrays) is not failed — "
+    "with one exception: while remove_key runs, the harness's replacement of the global operator new[] / delete[] counts, fails and leak-checks arrays "
+    "too (a remove_key that parks the surviving entries in `new char_ptr_ptr[]`: the unchanged tree)",
     "evaluating an EMPTY table is outside the property (documented precondition, splinetable.h:139); histories never use a destroyed object",
     "C20_invariant / C20_balanced / C20_safe quantify over histories satisfying wf_op: the op names one of the model's 4 object slots; a file that passes "
     "the dimension check has ndim >= 1 (fitsio.h:193 throws otherwise) and ndim entries in naxes[]; a fit that passes the sanity checks of fit.h:26-67 has "
     "ndim >= 1 and as many knot vectors as orders; the byte count of a key is a function of the key. Each condition is shown necessary on the model "
     "(C20_wf_needed_*); none restricts the code",
 ]
-TRUSTED_EXTRA = ["harness/C20_harness.cpp checking allocator (shared registry; detects double free / foreign pointer / size mismatch / leak; fault injection)",
-                 "tools/translators/objfixes.py (which proposed fixes the tree contains -> Generated_objfixes.tree_cfg)"]
+TRUSTED_EXTRA = ["harness/C20_harness.cpp checking allocator (shared registry; detects double free / foreign pointer / size mismatch / leak; fault injection; "
+                 "global operator new[] / delete[] replaced and put under the same bookkeeping while a remove_key call runs)",
+                 "tools/translators/objfixes.py (which proposed fixes the tree contains -> Generated_objfixes.tree_cfg; remove_key's body must match one of two texts)"]
 
 KEYS = {"KEY1": 1, "KEY2": 2, "KEY3": 3, "KEY4": 4, "KEY5": 5, "KEY6": 6, "LONGKEYNAME7": 7,
         # 16 names: histories with 10 and more stored keys occur (remove_key's behaviour depends on the number of stored keys)
@@ -666,7 +670,7 @@ def run(info, out):
     for cid, ops, fault in allc:
         key = hashlib.sha256(json.dumps([ops, fault], sort_keys=True).encode()).hexdigest()
         kinds = set(o["k"] for o in ops)
-        if len(kinds) >= 4: distinct.add(key)
+        if len(kinds) >= 4 or any(o["k"] == "dkey" and o.get("stored", 0) >= 3 for o in ops): distinct.add(key)
     for cid, ops, fault in base:
         lens[len(ops)] = lens.get(len(ops), 0) + 1
         for o in ops: opk[o["k"]] = opk.get(o["k"], 0) + 1
@@ -694,8 +698,10 @@ def run(info, out):
     for cid, ops, fault in (base[:1] + faulted[:2]):
         samples.append({"case": cid, "fault_at_allocation": fault, "ops": ops[:8], "impl_outcomes": [r.get("out") for r in (res0 if cid in res0 else res1)[cid][0] if "out" in r][:12]})
     return {"evaluations": len(allc) + searched, "distinct_nontrivial": len(distinct),
-            "rule": "a case = (history of <= 25 operations over <= 3 objects, position of the injected allocation failure or none); non-trivial = at least 4 different "
-                    "operation kinds; distinct by hash of (ops, fault position)",
+            "rule": "a case = (history of <= 25 operations over <= 3 objects — or a history of the many-keys family: one object, 10..16 distinct keys written, "
+                    "removals at the first / a middle / the last position with misses in between, further writes, <= 30 operations —, position of the "
+                    "injected allocation failure or none); non-trivial = at least 4 different operation kinds, or a remove_key that hits a table holding "
+                    ">= 3 keys; distinct by hash of (ops, fault position)",
             "samples": samples, "traces_validated_against_impl": stats.get("traces_validated", 0), "ops_compared": stats.get("ops_compared", 0),
             "input_distribution": {"ops_by_kind_in_fault_free_histories": opk, "implementation_outcomes": outk, "history_lengths": lens,
                                    "fault_free_histories": len(base), "many_keys_family_histories": nfam, "single_fault_cases": len(faulted), "inputs": len(env.inputs),
